@@ -196,7 +196,7 @@ pub fn run_random(seed: u64, nframes: usize, max_payload: usize) -> Vec<Value> {
     let maxlen = if seed % 4 == 0 { (max_payload as u32 * 3) / 4 + 1 } else { max_payload as u32 };
     let frames: Vec<FrameSpec> = (0..nframes).map(|i| {
         let n = match rng.gen_range(0..10) { 0 => 0, 1 => 1, 2 => max_payload, _ => rng.gen_range(1..=max_payload) };
-        FrameSpec { n, good: n >= min_good_len(i + 1) && rng.gen_range(0..8) != 0 }
+        FrameSpec { n, good: n >= min_good_len(i + 1) && rng.gen_range(0..8) != 0, huge: false }
     }).collect();
     let mut stream = stream_of(&frames);
     let total = stream.len();
